@@ -738,7 +738,7 @@ Section Message.
 
     Lemma level_result :
       fold_left conv_step d (POk []) = POk conv_result
-      /\ pbind (fold_left (ptv_step conv_result) d (POk [])) (fun o' => POk (VObj o'))
+      /\ pbind (fold_left (ptv_step conv_result) d (@POk obj [])) (fun o' => POk (VObj o'))
          = POk (VObj (flat_map (strip_entry P st d) o))
       /\ Forall (fun f => match dm_get conv_result (f_num f) with
                           | Some v => lens_field P em L f v -> wt_field P em WT f v
@@ -779,10 +779,10 @@ Section Message.
       exists m'. split; [exact H1|]. split; [|exact H3]. intros [Hl1 Hl2]. split; [apply H2; exact Hl1 | exact Hl2]. }
     destruct (level_result (conv_msg P lossy fu) (shaped_msg P fu) (ptv_msg P fu) (strip_msg P fu) (enc_msg P fu)
                            WT L below d Hd kvs Hsort Hsh) as (R1 & R2 & R3).
-    exists (conv_result (conv_msg P lossy fu) kvs d). split; [exact R1|]. split.
+    exists (conv_result (conv_msg P lossy fu) d kvs). split; [exact R1|]. split.
     - intros Hl. cbn [lens_msg wt_msg] in *. rewrite Forall_forall in *. intros f Hin.
       specialize (Hl f Hin). specialize (R3 f Hin).
-      destruct (dm_get (conv_result (conv_msg P lossy fu) kvs d) (f_num f)); [apply R3; exact Hl | exact I].
+      destruct (dm_get (conv_result (conv_msg P lossy fu) d kvs) (f_num f)); [apply R3; exact Hl | exact I].
     - exact R2.
   Qed.
 
